@@ -289,6 +289,18 @@ theorem applyItems_whole {ld : String → Val} {t : Table} {w : Option String} {
 
 /-! ## `validate` looks at the whole-group flag of a group only for a string value -/
 
+/-- a level with one group has no list-typed argument an append key could be consumed by -/
+theorem appendSlot_group (key : String) (w : Bool) (lf : Fields) (k : String) :
+    appendSlot [(key, Node.group w lf)] k = none := by
+  unfold appendSlot
+  cases plusBase k with
+  | none => rfl
+  | some b =>
+    simp only [assoc]
+    by_cases h : key = b
+    · simp [h, appendable]
+    · simp [h]
+
 theorem walk_group_whole {ld : String → Val} {key : String} {w1 w2 : Bool} {lf : Fields} {pre : Path} {cut : Nat} :
     ∀ (cfg : KV), NoStr key cfg →
     walk ld pre cut [(key, .group w1 lf)] none cfg = walk ld pre cut [(key, .group w2 lf)] none cfg
@@ -310,7 +322,7 @@ theorem walk_group_whole {ld : String → Val} {key : String} {w1 w2 : Bool} {lf
       | int i => rw [chkVal, chkVal] <;> simp
       | flt f => rw [chkVal, chkVal] <;> simp
       | list xs => rw [chkVal, chkVal] <;> simp
-    · simp only [assoc, hk, if_false, subOf]
+    · simp only [assoc, hk, if_false, subOf, appendSlot_group]
 
 theorem validate_group_whole {ld : String → Val} {key : String} (w1 w2 : Bool) (lf : Fields) {cfg : KV}
     (h : NoStr key cfg) : validate ld [(key, .group w1 lf)] cfg = validate ld [(key, .group w2 lf)] cfg := by
